@@ -311,6 +311,119 @@ class _IdMap(dict):
         return self.nid(k)
 
 
+def _digits(t):
+    """the number written in an action / predicate text: its first run of digits (0 when there is none);
+    ocaml/rddriver.ml numbers the texts the same way"""
+    m = re.search(r"\d+", t)
+    return int(m.group(0)) if m else 0
+
+
+def _rd_expr(n, names):
+    t = n.t
+    if t == P.T_DOT:
+        return "(dot)"
+    if t == P.T_CHAR:
+        if len(n.s) != 1:
+            raise P.ConvError("character node with %d runes" % len(n.s))
+        return "(c %d)" % ord(n.s)
+    if t == P.T_RANGE:
+        return "(r %d %d)" % (ord(n.kids[0].s), ord(n.kids[1].s))
+    if t == P.T_NAME:
+        return "(n %d)" % (names.index(n.s) if n.s in names else len(names))
+    if t == P.T_PRED:
+        return "(p %d)" % _digits(n.s)
+    if t == P.T_STATE:
+        return "(s %d)" % _digits(n.s)
+    if t == P.T_ACTION:
+        return "(a %d)" % _digits(n.s)
+    if t == P.T_NIL:
+        return "(nil)"
+    if t in (P.T_ALT, P.T_SEQ):
+        return "(%s %s)" % ("alt" if t == P.T_ALT else "seq", " ".join(_rd_expr(k, names) for k in n.kids))
+    one = {P.T_AND: "and", P.T_NOT: "not", P.T_Q: "q", P.T_STAR: "star", P.T_PLUS: "plus", P.T_PUSH: "push"}
+    if t in one:
+        return "(%s %s)" % (one[t], _rd_expr(n.kids[0], names))
+    raise P.ConvError("node type %d not convertible" % t)
+
+
+def _cps(s):
+    return " ".join(str(ord(c)) for c in s)
+
+
+def _rd_nodes(nodes, names):
+    """the front end's tree (before Compile), top level in order, in the notation of ocaml/rddriver.ml"""
+    out = []
+    for n in nodes:
+        if n.t == 11:
+            out.append("(sp %s)" % _cps(n.s))
+        elif n.t == 12:
+            out.append("(cm %s)" % _cps(n.s))
+        elif n.t == 13:
+            out.append("(pk %s)" % _cps(n.s))
+        elif n.t == 14:
+            out.append("(ia %s)" % _cps(n.s[1:]) if n.s.startswith("=") else "(im %s)" % _cps(n.s))
+        elif n.t == 24:
+            st = [k for k in n.kids if k.t == 15]
+            out.append("(pg (%s) (%s))" % (_cps(n.s), _cps(st[0].s) if st else "?"))
+        elif n.t == P.T_RULE:
+            out.append("(ru (%s) %s)" % (_cps(n.s), _rd_expr(n.kids[0], names) if n.kids else "?"))
+        else:
+            out.append("(type%d)" % n.t)
+    return "(file %s)" % " ".join(out)
+
+
+def reader_stream(ctx, bd, problems):
+    """Files written by Reader/File.v's [fshow] from generated concrete syntax (ocaml/rddriver.ml, one PRNG seed),
+    kept when [file_okb] holds; the real front end must accept each and build exactly [file_nodes]."""
+    exe = C.ensure_reader()
+    n = 250 if ctx.tier == "quick" else 6000
+    seed = ctx.rng.randint(1, 10 ** 6)
+    rc, out, err = C.run(["bash", "-c", "ulimit -s unlimited 2>/dev/null; exec " + exe], input="names\ngen %d %d\n" % (seed, n), timeout=900)
+    if rc != 0:
+        raise RuntimeError("the reader driver failed (rc=%s): %s" % (rc, err[-500:]))
+    names, cases, skipped, reqs = [], {}, 0, []
+    for line in out.split("\n"):
+        if line.startswith("names "):
+            names = line.split(" ")[1:]
+        elif line.startswith("rd "):
+            head, rest = line.split(" :: ", 1)
+            m = re.match(r"okb=(\d) run=(\d) text=([\d ]*) nodes=(.*)$", rest)
+            cid = head.split(" ")[1]
+            if not m:
+                raise RuntimeError("unreadable reader driver line: " + line[:200])
+            if m.group(1) != "1":
+                skipped += 1
+                continue
+            text = "".join(chr(int(x)) for x in m.group(3).split())
+            cases[cid] = dict(text=text, nodes=m.group(4), run=m.group(2))
+            reqs.append(dict(id="rd_" + cid, text=text, out="", inline=False, switch=False, noast=False))
+    res = B.frontdump(bd, reqs)
+    ok = 0
+    for cid, c in cases.items():
+        replay = {"text": c["text"], "seed": seed, "case": cid, "model_nodes": c["nodes"][:2000]}
+        if c["run"] != "1":
+            problems.append(("Reader/FileBridge.v's builder, run over the calls of a well-formed file, does not end in file_nodes (the theorem C10_reader_file, evaluated)", replay, False))
+            continue
+        r = res.get("rd_" + cid, {})
+        if r.get("panic"):
+            problems.append(("the front end panics on a file written by Reader/File.v's fshow: " + r["panic"][:200], replay, True))
+            continue
+        if r.get("parse_err"):
+            problems.append(("the front end rejects a well-formed file (file_okb) that the reader theorem says it accepts: " + r["parse_err"][:160].replace("\n", " "), replay, True))
+            continue
+        try:
+            got = _rd_nodes(P.parse_dump(r["raw"]), names)
+        except (P.ConvError, IndexError, KeyError) as e:
+            problems.append(("the tree dumped for a reader-stream file is not convertible: %s" % e, replay, True))
+            continue
+        if got != c["nodes"]:
+            replay["front_end_nodes"] = got[:2000]
+            problems.append(("the front end builds another tree than Reader/FileBridge.v's file_nodes for a file written by fshow", replay, True))
+            continue
+        ok += 1
+    return dict(reader_files=len(cases), reader_skipped_not_wellformed=skipped, reader_agree=ok, reader_seed=seed)
+
+
 def check(ctx):
     # the reader theorems (Reader/*.v) are about peg.peg's own rule tree: regenerate it from the source first
     import shutil
@@ -444,6 +557,9 @@ def check(ctx):
         ev += 1
         if r.get("panic") or not r.get("parse_err"):
             problems.append(("text without the package/type header (%s) is not reported as an error" % gid, {"text": gid}, True))
+    rd_cov = reader_stream(ctx, bd, problems)
+    ev += rd_cov["reader_files"]
+    nontriv += rd_cov["reader_agree"]
     rep = 0
     seen = set()
     for what, replay, found in problems:
@@ -458,5 +574,6 @@ def check(ctx):
         "evaluations": ev, "distinct_nontrivial": nontriv,
         "rule": "surface grammars (every construct of docs/peg-file-syntax.md and peg.peg: literals in both quote styles, classes incl. negated / case-insensitive / ranges, every escape spelling, prefix and suffix operators, captures, actions, predicates, groups, empty alternatives, imports in single / aliased / grouped forms, # and // comments, both arrows, arbitrary white space) are printed with random spelling choices, parsed by the real front end, and the raw rule tree (walked through exported accessors) is compared with the tree Model/Front.v's builder machine computes for the surface expression; %d malformed-by-construction texts, truncations of valid texts and header-less texts must be rejected without panic" % len(MALFORMED),
         "problems": len(problems), "malformed": len(MALFORMED) + len(trunc) + 2,
+        "reader_stream": dict(rd_cov, rule="concrete syntax trees with random layout and spellings (ocaml/rddriver.ml, seeded) are printed by the extracted Reader/File.v fshow; those with file_okb = true are parsed by the real front end and its raw tree is compared, node for node, with the extracted file_nodes (what C10_reader_file says is built)"),
         "samples": [{"text": list(expect.values())[1]["text"][-300:]}],
     })
